@@ -29,7 +29,7 @@ func genC04(t *rapid.T) CrashCase {
 			c.Ops[i].Len %= 5000
 		}
 	}
-	return CrashCase{Case: c, RecEvery: rapid.SampledFrom([]int{0, 0, 7, 5}).Draw(t, "recEvery")}
+	return CrashCase{Case: c, RecEvery: rapid.SampledFrom([]int{0, 0, 7, 5}).Draw(t, "recEvery"), OddPath: rapid.IntRange(0, 2).Draw(t, "oddPath") == 0}
 }
 
 func TestC04(t *testing.T) { ev.Check(t, "C04", "crash", genC04, ExecC04) }
